@@ -502,6 +502,10 @@ impl Sim {
         if self.after_fault && p.iter().any(|x| matches!(*x, "C01" | "C02" | "C03")) && !p.contains(&"C09") {
             p.push("C09");
         }
+        // a persistent mismatch is re-observed after every frame: record it once
+        if self.errs.iter().any(|e| e.msg == msg) {
+            return;
+        }
         self.errs.push(Violation { props: p, msg });
     }
 
